@@ -7,6 +7,7 @@ import (
 	"sync/atomic"
 	"testing"
 	"time"
+	"verifharness/internal/hook"
 
 	"github.com/rulego/streamsql"
 	"github.com/rulego/streamsql/logger"
@@ -28,7 +29,8 @@ type Case struct {
 	Threshold    float64 `json:"threshold"`
 	BlockTimeout int     `json:"block_timeout_us"` // 0 = block forever
 	SinkDelayUs  int     `json:"sink_delay_us"`
-	Yield        []int   `json:"yield"` // per producer: 0 none, 1 Gosched every row, 2 short sleep every 64 rows
+	Yield        []int   `json:"yield"`               // per producer: 0 none, 1 Gosched every row, 2 short sleep every 64 rows
+	HookSeed     uint64  `json:"hook_seed,omitempty"` // seed of the engine's build-tag-guarded perturbation points (0 = off)
 }
 
 func genCase(t *rapid.T) Case {
@@ -53,10 +55,18 @@ func genCase(t *rapid.T) Case {
 	for i := 0; i < c.Producers; i++ {
 		c.Yield = append(c.Yield, rapid.IntRange(0, 2).Draw(t, "yield"))
 	}
+	c.HookSeed = hookSeed(t)
 	return c
 }
 
 func runCase(c Case) (res pbt.Result) {
+	hook.Configure(c.HookSeed)
+	defer func() {
+		for site, n := range hook.Sites() {
+			res.Count("hook:"+site, n)
+		}
+		hook.Configure(0)
+	}()
 	pc := types.DefaultPerformanceConfig()
 	pc.BufferConfig.DataChannelSize = c.Buffer
 	pc.BufferConfig.MaxBufferSize = c.Ceiling
@@ -227,12 +237,12 @@ func runCase(c Case) (res pbt.Result) {
 }
 
 var spec = pbt.Spec[Case]{
-	ID:   "C19",
-	Rule: "generated: `SELECT p, i FROM stream` with 1-8 concurrent producers x 50-2000 rows, strategy drop/block/expand, buffer 1-64, growth factor 1.1-3, min increment 1-16, ceiling 2-256, trigger threshold 0.1-1, block timeout none or 50 us-5 ms, sink delay 0-200 us, producer yields; built with -race. oracle after quiescence: processed (p,i) pairwise distinct and all emitted; |processed| + input_dropped_count == number of Emit calls; block without timeout drops nothing; data_chan_cap (polled concurrently and at the end) never above the ceiling; with one producer processed order == emission order. non-trivial = an expansion happened or a row was dropped, with >= 2 producers; distinct by case hash",
+	ID:          "C19",
+	Rule:        "generated: `SELECT p, i FROM stream` with 1-8 concurrent producers x 50-2000 rows, strategy drop/block/expand, buffer 1-64, growth factor 1.1-3, min increment 1-16, ceiling 2-256, trigger threshold 0.1-1, block timeout none or 50 us-5 ms, sink delay 0-200 us, producer yields; built with -race. oracle after quiescence: processed (p,i) pairwise distinct and all emitted; |processed| + input_dropped_count == number of Emit calls; block without timeout drops nothing; data_chan_cap (polled concurrently and at the end) never above the ceiling; with one producer processed order == emission order. non-trivial = an expansion happened or a row was dropped, with >= 2 producers; distinct by case hash",
 	Assumptions: []string{"quiescence = all producers returned and counters add up, or counters unchanged with an empty buffer for 300 ms", "a data race reported by the race detector kills the process and is reported as a violation by the driver"},
-	Gen:  genCase,
-	Run:  runCase,
-	WAL:  true,
+	Gen:         genCase,
+	Run:         runCase,
+	WAL:         true,
 }
 
 func TestProp(t *testing.T)    { pbt.RunProp(t, spec) }
@@ -240,3 +250,11 @@ func TestReplay(t *testing.T)  { pbt.RunReplay(t, spec) }
 func TestWitness(t *testing.T) { pbt.RunWitnesses(t, spec) }
 
 var _ = fmt.Sprint
+
+// hookSeed: two cases in three run with schedule perturbation at the engine's verif-tagged points.
+func hookSeed(t *rapid.T) uint64 {
+	if rapid.IntRange(0, 2).Draw(t, "hookon") == 0 {
+		return 0
+	}
+	return uint64(rapid.IntRange(1, 1<<30).Draw(t, "hookseed"))
+}
